@@ -12,14 +12,14 @@ def prop(pid, **kw):
     PROPS[pid] = kw
 
 
-prop('C04',
+prop('C04', bounded=['validation_d'],
      explanation='contract obligations on the validator closures, generated from the real AST and discharged by SMT')
 prop('C07', explanation='contracts on check_encoding_chars, _split_msh, get_message_info, default resolvers')
 prop('C09', bounded=['histories'], explanation='functional postconditions of the ElementList mutators against the ordered-list model')
 prop('C10', bounded=['histories'], explanation='back-pointer and container-consistency postconditions of the attach path')
 prop('C11', bounded=['histories'], explanation='frame clauses of the read paths and the traversal (temporary parent) path')
 prop('C12', bounded=['histories'], explanation='exceptional postconditions (raises => view unchanged) of the mutators')
-prop('C13', explanation='contracts on the format-selection helpers')
+prop('C13', bounded=['datatypes'], explanation='contracts on the format-selection helpers')
 prop('C14', explanation='contracts on name resolution (find_child_reference interface, _find_name, child_at_index)')
 prop('C15', explanation='raises clauses: only declared exception classes escape the header functions')
 
@@ -30,3 +30,14 @@ prop('C02', ground=['tables:twf_segments', 'tables:twf_datatypes', 'tables:const
      bounded=[],
      explanation='the position <-> name map is the table: every row checked (ground, exhaustive), every segment and '
                  'complex datatype instantiated, the position lemma executed on every well-formed row')
+
+prop('C06', bounded=['textual'],
+     explanation='class-alphabet enumeration of the real _escape_value (both variants, several delimiter sets) up to a length '
+                 'bound; delimiter-safety, idempotence and tokenisation checked on every string')
+prop('C03', bounded=['roundtrip'], explanation='end-to-end: same segments, same order, same leaves (bounded round-trip driver)')
+
+prop('C05', bounded=['validation_d', 'histories'],
+     explanation='STRICT admission checks of the attach path under contract (cardinality, level, version); STRICT-built '
+                 'instances validated, STRICT / TOLERANT lockstep in the bounded drivers')
+prop('C18', bounded=['validation_d'],
+     explanation='no-op profile lemma on generated instances (bounded); reference threading contracts to follow')
